@@ -12,9 +12,6 @@ Proof. rewrite in_app_iff. tauto. Qed.
 Lemma not_in_repeat {A} (x y : A) n : x <> y -> ~ In x (repeat y n).
 Proof. intros Hxy Hin. apply repeat_spec in Hin. congruence. Qed.
 
-(* x is none of the listed characters *)
-Ltac notin := unfold NL, ESC, LM, SP, BAR; notin.
-
 Lemma map_flat_map {A B C} (f : B -> C) (g : A -> list B) (l : list A) :
   map f (flat_map g l) = flat_map (fun x => map f (g x)) l.
 Proof. induction l as [|x l IH]; simpl; [reflexivity|]. rewrite map_app, IH. reflexivity. Qed.
@@ -140,6 +137,13 @@ Proof.
   rewrite strip_copy by assumption. reflexivity.
 Qed.
 
+(* x is none of the listed characters *)
+Ltac no_such_char :=
+  let H := fresh "H" in
+  intro H; cbv [In NL ESC LM SP BAR] in H;
+  repeat match type of H with _ \/ _ => destruct H as [H|H]; [discriminate H|] end;
+  first [exact (False_ind _ H) | discriminate H].
+
 Lemma colored_no_nl t w col : wf_ocolor col -> ~ In NL t -> ~ In NL (colored_text t w col).
 Proof.
   intros Hcol Ht.
@@ -147,13 +151,14 @@ Proof.
   destruct col as [[|x c]|]; cbn [colored_text]; try assumption.
   destruct (Hcol (x :: c) eq_refl) as [Hnl _].
   unfold tt_esc_prefix, tt_esc_suffix.
-  repeat (apply not_in_app; split); try assumption; notin.
+  apply not_in_app; split; [no_such_char|]. apply not_in_app; split; [assumption|].
+  apply not_in_app; split; [assumption | no_such_char].
 Qed.
 
 Lemma colored_nonempty t w col : t <> [] -> colored_text t w col <> [].
 Proof.
-  intros Ht. destruct col as [[|x c]|]; simpl; unfold pad; try (destruct t; [congruence | discriminate]).
-  unfold tt_esc_prefix. discriminate.
+  intros Ht. destruct col as [[|x c]|]; cbn [colored_text]; unfold pad, tt_esc_prefix;
+    (destruct t; [congruence | discriminate]).
 Qed.
 
 (* ================= one line of the table ================= *)
@@ -174,7 +179,7 @@ Lemma border_strip border bc rest :
   length (strip_aux false (border_text border bc ++ rest)) = (if border then 1 else 0) + length (strip_aux false rest).
 Proof.
   intros Hbc. destruct border; simpl border_text; [|reflexivity].
-  rewrite strip_colored; [|assumption | notin].
+  rewrite strip_colored; [|assumption | no_such_char].
   rewrite app_length, pad_length. reflexivity.
 Qed.
 
@@ -193,7 +198,7 @@ Proof.
   induction ws as [|w ws IH]; intros cells rc border bc rest Hrc Hbc Hcells Hfit.
   - simpl. destruct border; reflexivity.
   - destruct cells as [|c cs]; cbn [cells_repr]; repeat rewrite <- app_assoc.
-    + rewrite strip_colored; [|assumption | notin].
+    + rewrite strip_colored; [|assumption | no_such_char].
       rewrite app_length, pad_length, border_strip by assumption.
       rewrite IH; try assumption; [|intros i c H; destruct i; discriminate].
       cbn [total_width length]. destruct border; lia.
@@ -221,7 +226,7 @@ Qed.
 Lemma border_no_nl border bc : wf_ocolor bc -> ~ In NL (border_text border bc).
 Proof.
   intros Hbc. destruct border; simpl; [|tauto].
-  apply colored_no_nl; [assumption | notin].
+  apply colored_no_nl; [assumption | no_such_char].
 Qed.
 
 Lemma cells_repr_no_nl ws : forall cells rc border bc,
@@ -229,7 +234,7 @@ Lemma cells_repr_no_nl ws : forall cells rc border bc,
 Proof.
   induction ws as [|w ws IH]; intros cells rc border bc Hrc Hbc Hcells; [simpl; tauto|].
   destruct cells as [|c cs]; cbn [cells_repr]; repeat (apply not_in_app; split).
-  - apply colored_no_nl; [assumption | notin].
+  - apply colored_no_nl; [assumption | no_such_char].
   - apply border_no_nl; assumption.
   - apply IH; assumption.
   - inversion Hcells as [|c' cs' (Hcol & _ & Hnl) Hcs]; subst.
@@ -335,3 +340,337 @@ Proof.
   apply Forall_forall. intros l Hl. apply in_map_iff in Hl. destruct Hl as (r & <- & Hr).
   apply row_visible_width; [eapply Forall_forall; eassumption | assumption | apply widths_fit; assumption].
 Qed.
+
+(* ================= which rows a sheet has ================= *)
+
+Section TreeInd.
+Variable P : tree -> Prop.
+Hypothesis Hnode : forall d ch, Forall P ch -> P (Node d ch).
+Fixpoint tree_ind' (t : tree) : P t :=
+  match t with
+  | Node d ch =>
+      Hnode d ch ((fix go (l : list tree) : Forall P l :=
+                     match l with
+                     | [] => Forall_nil P
+                     | x :: r => Forall_cons x (tree_ind' x) (go r)
+                     end) ch)
+  end.
+End TreeInd.
+
+Fixpoint size (t : tree) : nat :=
+  match t with Node _ ch => S (fold_right (fun c n => size c + n) 0 ch) end.
+
+Lemma preorder_length t : forall level, length (preorder level t) = size t.
+Proof.
+  induction t as [d ch IH] using tree_ind'; intros level. simpl. f_equal.
+  induction IH as [|c ch Hc _ IHch]; simpl; [reflexivity|].
+  rewrite app_length, Hc, IHch. reflexivity.
+Qed.
+
+Section Sheets.
+Variables upper lower : text -> text.
+
+Lemma subtree_rows_spec fields th t : forall level,
+  subtree_rows lower fields th true level t
+  = map (fun ld => task_row lower fields th (fst ld) (snd ld)) (preorder level t).
+Proof.
+  induction t as [d ch IH] using tree_ind'; intros level. simpl. f_equal.
+  rewrite map_flat_map. apply flat_map_ext_Forall.
+  eapply Forall_impl; [|exact IH]. intros c Hc. apply Hc.
+Qed.
+
+Lemma subtree_rows_flat fields th level t :
+  subtree_rows lower fields th false level t = [task_row lower fields th level (root_data t)].
+Proof. destruct t. reflexivity. Qed.
+
+(* (C20) a sheet is the header row followed by one row per shown task, in depth-first order:
+   every descendant when children are shown, only the given tasks otherwise *)
+Theorem sheet_rows_spec ts fields children th :
+  sheet_rows upper lower ts fields children th
+  = header_row upper (the_fields fields) (the_theme th)
+    :: map (fun ld => task_row lower (the_fields fields) (the_theme th) (fst ld) (snd ld)) (shown children ts).
+Proof.
+  unfold sheet_rows, shown. f_equal. destruct children.
+  - rewrite map_flat_map. apply flat_map_ext_Forall. apply Forall_forall. intros t _.
+    apply subtree_rows_spec.
+  - induction ts as [|t ts IH]; simpl; [reflexivity|].
+    rewrite subtree_rows_flat. simpl. f_equal. exact IH.
+Qed.
+
+Lemma shown_count_children ts : length (shown true ts) = fold_right (fun t n => size t + n) 0 ts.
+Proof.
+  unfold shown. induction ts as [|t ts IH]; simpl; [reflexivity|].
+  rewrite app_length, preorder_length, IH. reflexivity.
+Qed.
+
+Lemma shown_count_flat ts : length (shown false ts) = length ts.
+Proof. unfold shown. apply map_length. Qed.
+
+Lemma sheet_rows_count ts fields children th :
+  length (sheet_rows upper lower ts fields children th) = S (length (shown children ts)).
+Proof. rewrite sheet_rows_spec. simpl. rewrite map_length. reflexivity. Qed.
+
+Lemma header_cells fields th : length (r_cells (header_row upper fields th)) = length fields.
+Proof. unfold header_row, build_row. simpl. rewrite !map_length. reflexivity. Qed.
+
+Lemma sheet_widths_nonempty ts fields children th :
+  the_fields fields <> [] -> widths (sheet_rows upper lower ts fields children th) <> [].
+Proof.
+  intros Hf. apply widths_nonempty with (r := header_row upper (the_fields fields) (the_theme th)).
+  - unfold sheet_rows. left. reflexivity.
+  - intro H. apply Hf. apply length_zero_iff_nil. rewrite <- (header_cells (the_fields fields) (the_theme th)), H. reflexivity.
+Qed.
+
+(* (C20) the printed sheet has one header line plus one line per shown task, each the rendering of
+   its row; all lines have the same visible width, the sum of the column widths and margins *)
+Theorem sheet_lines ts fields children th :
+  let rows := sheet_rows upper lower ts fields children th in
+  the_fields fields <> [] -> Forall row_ok rows ->
+  split_lines (sheet_text upper lower ts fields children th) = map (row_repr (widths rows) false None) rows
+  /\ length (split_lines (sheet_text upper lower ts fields children th)) = S (length (shown children ts))
+  /\ Forall (fun l => length (strip_colors l) = total_width (widths rows))
+            (split_lines (sheet_text upper lower ts fields children th)).
+Proof.
+  intros rows Hf Hok. unfold sheet_text. fold rows.
+  assert (Hne : rows <> []) by (unfold rows, sheet_rows; discriminate).
+  assert (Hw : false = true \/ widths rows <> []) by (right; apply sheet_widths_nonempty; assumption).
+  split; [|split].
+  - apply text_repr_lines; try assumption. apply wf_ocolor_none.
+  - rewrite text_repr_lines; try assumption; [|apply wf_ocolor_none].
+    rewrite map_length. apply sheet_rows_count.
+  - pose proof (table_aligned rows false None Hne Hw Hok wf_ocolor_none) as H.
+    unfold line_width in H. eapply Forall_impl; [|exact H]. simpl. intros l Hl. lia.
+Qed.
+
+(* ================= indentation ================= *)
+
+Lemma level_indent_spaces level : level_indent level = repeat SP (3 * level).
+Proof.
+  unfold level_indent, sheet_indent. induction level as [|l IH]; [reflexivity|].
+  replace (3 * S l) with (S (S (S (3 * l)))) by lia. simpl. rewrite IH. reflexivity.
+Qed.
+
+Lemma task_row_cell fields th level d j f :
+  nth_error fields j = Some f ->
+  exists c, nth_error (r_cells (task_row lower fields th level d)) j = Some c
+            /\ c_text c = cell_value lower level d f
+            /\ c_color c = row_color th level d.
+Proof.
+  intros Hj. unfold task_row, build_row. simpl. rewrite map_map.
+  eexists. split; [apply map_nth_error; exact Hj|]. split; reflexivity.
+Qed.
+
+(* (C20) in every column whose field is 'name' the cell is three spaces per level, then the name
+   (nothing for a None name) *)
+Theorem name_cell_indented fields th level d j :
+  nth_error fields j = Some sheet_fld_name ->
+  exists c, nth_error (r_cells (task_row lower fields th level d)) j = Some c
+            /\ c_text c = repeat SP (3 * level) ++ opt_text (t_name d).
+Proof.
+  intros Hj. destruct (task_row_cell fields th level d j _ Hj) as (c & Hc & Ht & _).
+  exists c. split; [assumption|]. rewrite Ht. unfold cell_value.
+  rewrite text_eqb_refl. unfold name_cell. rewrite level_indent_spaces. reflexivity.
+Qed.
+
+(* the level a shown task is printed with is its depth below the given task *)
+Lemma preorder_occurs t : forall k l d,
+  In (l, d) (preorder k t) <-> exists l', l = k + l' /\ occurs t l' d.
+Proof.
+  induction t as [d0 ch IH] using tree_ind'; intros k l d. simpl. split.
+  - intros [Heq | Hin].
+    + inversion Heq; subst. exists 0. split; [lia | constructor].
+    + apply in_flat_map in Hin. destruct Hin as (c & Hc & Hin).
+      rewrite Forall_forall in IH. apply (IH c Hc) in Hin. destruct Hin as (l' & -> & Hocc).
+      exists (S l'). split; [lia|]. econstructor; eassumption.
+  - intros (l' & -> & Hocc). inversion Hocc as [d1 ch1 | d1 ch1 c l1 d2 Hc Hocc']; subst.
+    + left. f_equal. lia.
+    + right. apply in_flat_map. exists c. split; [assumption|].
+      rewrite Forall_forall in IH. apply (IH c); [assumption|]. exists l1. split; [lia | assumption].
+Qed.
+
+Theorem shown_levels ts l d :
+  (In (l, d) (shown true ts) <-> exists t, In t ts /\ occurs t l d) /\
+  (In (l, d) (shown false ts) <-> l = 0 /\ exists t, In t ts /\ d = root_data t).
+Proof.
+  unfold shown. split.
+  - rewrite in_flat_map. split.
+    + intros (t & Ht & Hin). apply preorder_occurs in Hin. destruct Hin as (l' & -> & Hocc). exists t. split; assumption.
+    + intros (t & Ht & Hocc). exists t. split; [assumption|]. apply preorder_occurs. exists l. split; [reflexivity | assumption].
+  - rewrite in_map_iff. split.
+    + intros (t & Heq & Ht). inversion Heq; subst. split; [reflexivity|]. exists t. split; [assumption | reflexivity].
+    + intros (-> & t & Ht & ->). exists t. split; [reflexivity | assumption].
+Qed.
+
+(* ================= dependency and parent columns ================= *)
+
+Lemma owner_eqb_spec a b : owner_eqb a b = true <-> a = b.
+Proof. apply opt_eqb_spec. intros x y. apply Nat.eqb_eq. Qed.
+
+(* "(external)" *)
+Definition external_marker : text := [40; 101; 120; 116; 101; 114; 110; 97; 108; 41]%N.
+
+(* (C20) a linked task is shown by its id, followed by the marker exactly when its WBS is not the
+   WBS of the task of the row *)
+Theorem link_text_spec t l :
+  id_is_empty (l_id l) = false ->
+  (l_owner l = t_owner t -> link_text t (Some l) = id_text (l_id l)) /\
+  (l_owner l <> t_owner t -> link_text t (Some l) = id_text (l_id l) ++ external_marker).
+Proof.
+  intros He. unfold link_text. rewrite He. split; intros H.
+  - apply owner_eqb_spec in H. rewrite H. apply app_nil_r.
+  - destruct (owner_eqb (l_owner l) (t_owner t)) eqn:E; [apply owner_eqb_spec in E; contradiction | reflexivity].
+Qed.
+
+Theorem link_columns t :
+  field_value lower t sheet_fld_predecessors
+    = sheet_lbracket ++ join sheet_link_sep (map (fun l => link_text t (Some l)) (t_preds t)) ++ sheet_rbracket
+  /\ field_value lower t sheet_fld_successors
+    = sheet_lbracket ++ join sheet_link_sep (map (fun l => link_text t (Some l)) (t_succs t)) ++ sheet_rbracket
+  /\ field_value lower t sheet_fld_parent = link_text t (t_parent t)
+  /\ link_text t None = [].
+Proof. repeat split; reflexivity. Qed.
+
+(* an unknown field gives an empty cell, a None attribute a dash *)
+Lemma unknown_field_empty t f :
+  existsb (text_eqb f) [sheet_fld_predecessors; sheet_fld_successors; sheet_fld_parent; sheet_fld_id;
+                        sheet_fld_estimate; sheet_fld_spent] = false ->
+  dict_get t f = None -> dict_get t (lower f) = None -> field_value lower t f = [].
+Proof.
+  intros Hsp H1 H2. unfold field_value. simpl in Hsp.
+  repeat (apply orb_false_iff in Hsp; let E := fresh "E" in destruct Hsp as [E Hsp]; rewrite E).
+  rewrite H1, H2. reflexivity.
+Qed.
+
+(* ================= usage table ================= *)
+
+Lemma days_loop_spec n : forall d mx,
+  (mx < d + Z.of_nat n * DAY)%Z -> (n > 0 -> (d + (Z.of_nat n - 1) * DAY <= mx)%Z) ->
+  days_loop n d mx = map (fun k => d + Z.of_nat k * DAY)%Z (seq 0 n).
+Proof.
+  induction n as [|n IH]; intros d mx Hlt Hle; [reflexivity|].
+  cbn [days_loop]. unfold DAY in *.
+  destruct (Z.leb_spec d mx) as [Hd|Hd]; [|lia].
+  rewrite IH; [|lia|lia].
+  cbn [seq map]. f_equal; [lia|].
+  rewrite <- seq_shift, map_map. apply map_ext. intros k. lia.
+Qed.
+
+(* (C20) the loop visits the first day, then every following day up to the last one *)
+Lemma usage_days_spec mn mx :
+  (mn <= mx)%Z ->
+  usage_days mn mx = map (fun k => mn + Z.of_nat k * DAY)%Z (seq 0 (Z.to_nat ((mx - mn) / DAY + 1))).
+Proof.
+  intros H. unfold usage_days. apply days_loop_spec; unfold DAY in *.
+  - rewrite Z2Nat.id by (apply Z.add_nonneg_nonneg; [apply Z.div_pos|]; lia).
+    pose proof (Z.mod_pos_bound (mx - mn) 86400000000). pose proof (Z.div_mod (mx - mn) 86400000000). lia.
+  - intros _. rewrite Z2Nat.id by (apply Z.add_nonneg_nonneg; [apply Z.div_pos|]; lia).
+    pose proof (Z.mod_pos_bound (mx - mn) 86400000000). pose proof (Z.div_mod (mx - mn) 86400000000). lia.
+Qed.
+
+Lemma zmin_le_zmax l : forall a b, (a <= b)%Z -> (zmin_list a l <= zmax_list b l)%Z.
+Proof. induction l as [|y l IH]; intros a b H; simpl; [assumption | apply IH; lia]. Qed.
+
+Lemma day_start_mono a b : (a <= b)%Z -> (day_start a <= day_start b)%Z.
+Proof. intros H. unfold day_start. pose proof (day_of_mono a b H) as Hm. unfold day_of in Hm. unfold DAY in *. lia. Qed.
+
+Lemma zmin_day_start l : forall x, zmin_list (day_start x) (map day_start l) = day_start (zmin_list x l).
+Proof.
+  induction l as [|y l IH]; intros x; simpl; [reflexivity|]. rewrite <- IH. f_equal.
+  destruct (Z.le_ge_cases x y) as [H|H].
+  - rewrite !Z.min_l; [reflexivity | assumption | apply day_start_mono; assumption].
+  - rewrite !Z.min_r; [reflexivity | assumption | apply day_start_mono; assumption].
+Qed.
+
+Lemma zmax_day_start l : forall x, zmax_list (day_start x) (map day_start l) = day_start (zmax_list x l).
+Proof.
+  induction l as [|y l IH]; intros x; simpl; [reflexivity|]. rewrite <- IH. f_equal.
+  destruct (Z.le_ge_cases x y) as [H|H].
+  - rewrite !Z.max_r; [reflexivity | assumption | apply day_start_mono; assumption].
+  - rewrite !Z.max_l; [reflexivity | assumption | apply day_start_mono; assumption].
+Qed.
+
+Lemma zmin_day_of l : forall x, zmin_list (day_of x) (map day_of l) = day_of (zmin_list x l).
+Proof.
+  induction l as [|y l IH]; intros x; simpl; [reflexivity|]. rewrite <- IH. f_equal.
+  destruct (Z.le_ge_cases x y) as [H|H].
+  - rewrite !Z.min_l; [reflexivity | assumption | apply day_of_mono; assumption].
+  - rewrite !Z.min_r; [reflexivity | assumption | apply day_of_mono; assumption].
+Qed.
+
+Lemma zmax_day_of l : forall x, zmax_list (day_of x) (map day_of l) = day_of (zmax_list x l).
+Proof.
+  induction l as [|y l IH]; intros x; simpl; [reflexivity|]. rewrite <- IH. f_equal.
+  destruct (Z.le_ge_cases x y) as [H|H].
+  - rewrite !Z.max_r; [reflexivity | assumption | apply day_of_mono; assumption].
+  - rewrite !Z.max_l; [reflexivity | assumption | apply day_of_mono; assumption].
+Qed.
+
+(* the days between two dates, both included *)
+Definition days_between (first last : Z) : list Z :=
+  map (fun k => DAY * (day_of first + Z.of_nat k))%Z (seq 0 (Z.to_nat (day_of last - day_of first + 1))).
+
+(* (C20) the usage table is the header plus one row per day from the day of the earliest
+   reservation to the day of the latest one *)
+Theorem usage_rows_spec x l cols cells :
+  let u := mk_usage (x :: l) cols cells in
+  usage_rows upper u
+  = usage_header upper u :: map (usage_day_row u) (days_between (zmin_list x l) (zmax_list x l))
+  /\ length (usage_rows upper u) = S (Z.to_nat (day_of (zmax_list x l) - day_of (zmin_list x l) + 1)).
+Proof.
+  intros u.
+  assert (Hrows : usage_rows upper u
+            = usage_header upper u :: map (usage_day_row u) (days_between (zmin_list x l) (zmax_list x l))).
+  { unfold usage_rows, first_day, last_day. cbn [u u_dates map].
+    rewrite zmin_day_start, zmax_day_start.
+    assert (Hle : (zmin_list x l <= zmax_list x l)%Z) by (apply zmin_le_zmax; lia).
+    rewrite usage_days_spec by (apply day_start_mono; assumption).
+    f_equal. f_equal. unfold days_between.
+    assert (Hn : ((day_start (zmax_list x l) - day_start (zmin_list x l)) / DAY
+                  = day_of (zmax_list x l) - day_of (zmin_list x l))%Z).
+    { unfold day_start. rewrite <- Z.mul_sub_distr_l, Z.mul_comm. apply Z.div_mul. unfold DAY. lia. }
+    rewrite Hn. apply map_ext. intros k. unfold day_start, day_of, DAY. lia. }
+  split; [exact Hrows|]. rewrite Hrows. cbn [length]. unfold days_between. rewrite !map_length, seq_length. reflexivity.
+Qed.
+
+(* the printed usage table: one line per row, all of the same visible width *)
+Theorem usage_lines u :
+  u_dates u <> [] ->
+  let rows := usage_rows upper u in
+  Forall row_ok rows ->
+  split_lines (usage_text upper u) = map (row_repr (widths rows) true None) rows
+  /\ Forall (fun l => length (strip_colors l) = line_width (widths rows) true) (split_lines (usage_text upper u)).
+Proof.
+  intros Hd rows Hok. unfold usage_text. destruct (u_dates u) as [|x l] eqn:E; [congruence|]. fold rows.
+  assert (Hne : rows <> []) by (unfold rows, usage_rows; discriminate).
+  split.
+  - apply text_repr_lines; try assumption; [left; reflexivity | apply wf_ocolor_none].
+  - apply table_aligned; try assumption; [left; reflexivity | apply wf_ocolor_none].
+Qed.
+
+End Sheets.
+
+(* ================= meaning of the oracles of SheetCheck ================= *)
+
+Lemma same_width_b_spec lines :
+  same_width_b lines = true <->
+  forall l, In l lines -> length (strip_colors l) = length (strip_colors (hd [] lines)).
+Proof.
+  destruct lines as [|l0 ls]; simpl.
+  - split; [intros _ l [] | reflexivity].
+  - rewrite forallb_forall. unfold vis_len. split.
+    + intros H l [<- | Hin]; [reflexivity | apply Nat.eqb_eq, H, Hin].
+    + intros H l Hin. apply Nat.eqb_eq, H. right. assumption.
+Qed.
+
+Lemma line_count_b_spec lines n : line_count_b lines n = true <-> length lines = S n.
+Proof. unfold line_count_b. apply Nat.eqb_eq. Qed.
+
+Lemma name_cell_b_spec line off w level name :
+  name_cell_b line off w level name = true <->
+  firstn (w + 2) (skipn off (strip_colors line)) = pad (SP :: repeat SP (3 * level) ++ name ++ [SP]) (w + 2).
+Proof. unfold name_cell_b. apply text_eqb_spec. Qed.
+
+(* the number of days the usage oracle demands is the one of the theorem *)
+Lemma day_span_spec x l :
+  day_span (x :: l) = Z.to_nat (day_of (zmax_list x l) - day_of (zmin_list x l) + 1).
+Proof. unfold day_span. cbn [map]. rewrite zmin_day_of, zmax_day_of. reflexivity. Qed.
